@@ -220,8 +220,7 @@ def run(ctx: Ctx):
         lines = {(prog.sites[sid]["file"], prog.sites[sid]["line"]) for sid in a["sites"]}
         hit = None
         for o in dyn["observations"]:
-            st = o.get("site")
-            if st and any(st.startswith(f"{f}:") and st.endswith(f":{ln}") for f, ln in lines):
+            if any(st.startswith(f"{f}:") and st.endswith(f":{ln}") for st in o.get("all_sites", []) for f, ln in lines):
                 hit = o
                 break
         if hit is not None:
@@ -373,6 +372,8 @@ def run_dynamic(ctx: Ctx, prog, Sg, info):
                 if o["kind"] not in VIOLATION_KINDS:
                     ctx.count("dyn_other:" + o["kind"])
                     continue
+                if not o.get("site") and o.get("via") and o["kind"] == "readonly_error":
+                    o["site"] = o["via"]  # raised inside NumPy, directly below this grid frame
                 st = o.get("site") or ""
                 g = (case.func, st.split(":")[1] if st.count(":") >= 2 else "")
                 groups.setdefault(g, []).append((case.cid, mode, o, case))
@@ -419,9 +420,13 @@ def run_dynamic(ctx: Ctx, prog, Sg, info):
         text = (f"{func}: {kind} ({what}) in mode {mode}" + (f", write site {site}" if site else "") +
                 f": {o.get('detail', '')}  [{len(lst)} observations in {len({(c, m) for c, m, _, _ in lst})} runs; kinds: "
                 f"{', '.join(kinds)}; sites: {', '.join(sites)}]")
-        rec = {"key": key, "observed": observed, "text": text, "site": site, "repro": getattr(case, "repro", None)}
+        rec = {"key": key, "observed": observed, "text": text, "site": site, "all_sites": sites, "repro": getattr(case, "repro", None)}
         out.append(rec)
         replay = {"reproduce": getattr(case, "repro", None), "mode": mode, "observation": o,
+                  "mode_meaning": {"plain": "the call as shown", "readonly": "every argument array (and callback result) read-only",
+                                   "same": "the same array passed for two parameters", "cb_arg": "callbacks replaced by the variants below (they return their argument)",
+                                   "cb_cached": "callbacks return one cached constant array per shape"}[mode],
+                  "callback_variants": {k: str(getattr(case, k)) for k in ("cb_arg_variants", "cb_arg_reference", "cb_cached_constants", "alias_pairs") if getattr(case, k, None)},
                   "all_sites": sites, "kinds": kinds, "runs": sorted({(c, m) for c, m, _, _ in lst})[:30]}
         if not (may_write and site_ok):
             ctx.fail("C20_tie", key, observed,
